@@ -94,11 +94,21 @@ class XslGen:
                 out.append({"i": "attribute", "name": [{"lit": True, "s": cps(self.r.choice(["p", "q", "x"]))}],
                             "body": self.body(scope, 0, allow_attr=False) if self.r.random() < 0.6 else [{"i": "value-of", "sel": self.expr(scope, "any", d=1)}]})
         n = self.r.choice([1, 1, 2, 2, 3]) if d > 0 else self.r.choice([0, 1, 1])
+        if self.named and not out and self.r.random() < 0.12:
+            # a call-template as the only child of its parent (Xalan runs such a callee "directly")
+            return [self.call_template(scope, allow_params=self.r.random() < 0.4)]
         for _ in range(n):
             out.append(self.instr(scope, d))
             if out[-1]["i"] == "variable":
                 scope[out[-1]["name"]] = out[-1].pop("_type")
         return out
+
+    def call_template(self, scope, allow_params=True):
+        params = []
+        if allow_params and self.r.random() < 0.5:
+            b, _ = self.binding(self.r.choice(["pa", "pb"]), scope, 1)
+            params.append(b)
+        return {"i": "call-template", "name": self.r.choice(self.named), "params": params}
 
     def instr(self, scope, d):
         r = self.r.random()
@@ -132,11 +142,7 @@ class XslGen:
             return {"i": "apply-templates", "hasSel": has, "sel": self.down_ns(scope) if has else NONE, "mode": self.r.choice(self.modes),
                     "sorts": self.sorts(), "params": params}
         if r < 0.85 and self.named:
-            params = []
-            if self.r.random() < 0.6:
-                b, _ = self.binding(self.r.choice(["pa", "pb"]), scope, 1)
-                params.append(b)
-            return {"i": "call-template", "name": self.r.choice(self.named), "params": params}
+            return self.call_template(scope)
         if r < 0.9:
             return {"i": "copy", "body": self.body(scope, d - 1, in_elem=True)}
         if r < 0.95:
@@ -148,6 +154,10 @@ class XslGen:
             return {"i": self.r.choice(["comment", "pi"]), "name": cps("t"), "body": [{"i": "text", "v": cps("c")}] if self.r.random() < 0.5 else [{"i": "value-of", "sel": self.expr(scope, "str", d=0)}]}
         self.nvar = getattr(self, "nvar", 0) + 1
         name = "v%d" % self.nvar
+        # sometimes a local variable carries the name of a parameter that named templates declare
+        free = [nm for nm in ("pa", "pb") if nm not in scope]
+        if free and self.r.random() < 0.3:
+            name = self.r.choice(free)
         b, t = self.binding(name, scope, d)
         b["i"] = "variable"
         b["_type"] = t
